@@ -10,8 +10,11 @@
 (*   Reset  cfg                 a fresh client / cluster                    *)
 (*   Issue  c t                 the application calls the client            *)
 (*   Batch  s k p d r           a server received a request (type lists)    *)
-(*   Respond / Fail  s k        the server answers / fails that request     *)
-(*   Break  s k n               the server ends the attempt with a retriable *)
+(*   Respond / Fail  s k p d r  the server answers / fails the request it   *)
+(*                              names (the oldest one it holds: on a write  *)
+(*                              stream possibly one whose client-side wait  *)
+(*                              has timed out)                              *)
+(*   Break  s k n p d r         the server ends the attempt with a retriable *)
 (*                              error after streaming n responses            *)
 (*   Done   c res               a value arrived on the result channel       *)
 (*   SEmit  c s key / SEnd c s how   a server sends a record / ends         *)
@@ -19,7 +22,9 @@
 (*   Closed c                   that channel was closed                     *)
 (*   End                        the harness has drained everything          *)
 (* The client's own steps (batcher iterations, timers, per-shard forwarders,*)
-(* the merge) are not observable: TLC inserts them where a line needs them. *)
+(* the merge, and - in a world whose request timeout is short - the expiry  *)
+(* of a request) are not observable: TLC inserts them where a line needs    *)
+(* them.                                                                    *)
 EXTENDS ClientBatch, Json, TLC
 
 TraceLog == ndJsonDeserialize("trace.ndjson")
@@ -28,10 +33,10 @@ VARIABLES l,       \* next line
           seen,    \* the server has reported the in-flight request of (s, k)
           nobs,    \* per call: completions observed on the real client
           nout     \* per call: items observed on the real result channel
-tvars == <<cfg, calls, q, cur, fly, ans, agg, done, res, sent, part, sst, emitted, wire, chn, gcl, fin, mrg, out, l, seen, nobs, nout>>
+tvars == <<cfg, calls, q, cur, fly, ans, agg, done, res, sent, part, late, sst, emitted, wire, chn, gcl, fin, mrg, out, l, seen, nobs, nout>>
 
 CfgOf(e) == [n |-> e.cfg.n, maxReq |-> e.cfg.maxReq, maxBytes |-> e.cfg.maxBytes,
-             linger |-> e.cfg.linger, dead |-> Range(e.cfg.dead)]
+             linger |-> e.cfg.linger, dead |-> Range(e.cfg.dead), tmo |-> e.cfg.tmo]
 NoSeen(n) == [s \in 1..n |-> [w |-> FALSE, r |-> FALSE]]
 
 TInit == /\ Len(TraceLog) >= 1 /\ TraceLog[1].a = "Reset"
@@ -40,6 +45,13 @@ TInit == /\ Len(TraceLog) >= 1 /\ TraceLog[1].a = "Reset"
 
 Consume == l' = l + 1
 
+\* the request a Batch / Respond / Fail / Break line names
+SameBatch(B, e) ==
+    IF e.k = "w" THEN /\ TypeList(B, "put") = e.p /\ TypeList(B, "del") = e.d /\ TypeList(B, "delrange") = e.r
+                 ELSE B = e.p /\ e.d = <<>> /\ e.r = <<>>
+IsFly(e)  == fly[e.s][e.k] # <<>> /\ seen[e.s][e.k] /\ SameBatch(fly[e.s][e.k], e)
+IsLate(e) == e.k = "w" /\ late[e.s] # <<>> /\ SameBatch(Head(late[e.s]), e)
+
 Line(e) ==
     \/ /\ e.a = "Reset" /\ Reinit(CfgOf(e)) /\ seen' = NoSeen(e.cfg.n) /\ nobs' = <<>> /\ nout' = <<>>
     \/ /\ e.a = "Issue" /\ e.c = Len(calls) + 1 /\ Issue(e.t)
@@ -47,18 +59,23 @@ Line(e) ==
     \/ /\ e.a = "Batch"
        /\ e.s \in Shards /\ e.k \in Kinds
        /\ fly[e.s][e.k] # <<>> /\ ~seen[e.s][e.k]
-       /\ LET B == fly[e.s][e.k] IN
-          IF e.k = "w" THEN /\ TypeList(B, "put") = e.p /\ TypeList(B, "del") = e.d
-                            /\ TypeList(B, "delrange") = e.r
-                       ELSE B = e.p /\ e.d = <<>> /\ e.r = <<>>
+       /\ SameBatch(fly[e.s][e.k], e)
        /\ seen' = [seen EXCEPT ![e.s][e.k] = TRUE]
        /\ UNCHANGED <<vars, nobs, nout>>
-    \/ /\ e.a = "Respond" /\ seen[e.s][e.k] /\ Respond(e.s, e.k)
-       /\ seen' = [seen EXCEPT ![e.s][e.k] = FALSE] /\ UNCHANGED <<nobs, nout>>
-    \/ /\ e.a = "Fail" /\ seen[e.s][e.k] /\ Fail(e.s, e.k)
-       /\ seen' = [seen EXCEPT ![e.s][e.k] = FALSE] /\ UNCHANGED <<nobs, nout>>
-    \/ /\ e.a = "Break" /\ seen[e.s][e.k] /\ Break(e.s, e.k, e.n)
-       /\ seen' = [seen EXCEPT ![e.s][e.k] = FALSE] /\ UNCHANGED <<nobs, nout>>
+    \* the server answers the oldest request it holds: the one in flight, or (write stream) one the client has
+    \* given up waiting for - that response must not reach anybody
+    \/ /\ e.a = "Respond" /\ e.s \in Shards /\ e.k \in Kinds
+       /\ \/ /\ IsFly(e) /\ Respond(e.s, e.k)
+             /\ seen' = [seen EXCEPT ![e.s][e.k] = FALSE]
+          \/ /\ IsLate(e) /\ RespondLate(e.s) /\ UNCHANGED seen
+       /\ UNCHANGED <<nobs, nout>>
+    \* the server ends the RPC / the write stream with an error while handling the request it names
+    \/ /\ e.a \in {"Fail", "Break"} /\ e.s \in Shards /\ e.k \in Kinds
+       /\ \/ /\ IsFly(e) \/ (IsLate(e) /\ fly[e.s][e.k] # <<>> /\ seen[e.s][e.k])
+             /\ IF e.a = "Fail" THEN Fail(e.s, e.k) ELSE Break(e.s, e.k, e.n)
+             /\ seen' = [seen EXCEPT ![e.s][e.k] = FALSE]
+          \/ /\ IsLate(e) /\ DropLate(e.s) /\ UNCHANGED seen
+       /\ UNCHANGED <<nobs, nout>>
     \/ /\ e.a = "Done" /\ e.c \in CallIds /\ ~IsStream(calls[e.c])
        /\ done[e.c] >= 1 /\ nobs[e.c] = 0 /\ res[e.c] = e.res
        /\ nobs' = [nobs EXCEPT ![e.c] = 1] /\ UNCHANGED <<vars, seen, nout>>
@@ -87,13 +104,26 @@ LowestWith(c, x) == CHOOSE s \in Shards : wire[c][s] # <<>> /\ Head(wire[c][s]) 
                         /\ \A s2 \in Shards : (wire[c][s2] # <<>> /\ Head(wire[c][s2]) = x) => s <= s2
 HasHead(c, x) == \E s \in Shards : wire[c][s] # <<>> /\ Head(wire[c][s]) = x
 
+\*  - request timeout (only in a world whose timeout is short, cfg.tmo): the client-side wait for the request
+\*    in flight ended - demanded by a "timeout" completion of one of its calls; by the arrival of the next
+\*    request of the same batcher (its Batch line can overtake the completions, which travel through the
+\*    application's goroutines); by an answer the server was told to send that the client did not wait for
+\*    any more (both orders are tried: the completions that follow decide).
 Silent(e) ==
-    /\ UNCHANGED <<l, seen, nobs, nout>>
-    /\ \/ /\ e.a = "Batch" /\ e.s \in Shards /\ e.k \in Kinds
+    /\ UNCHANGED <<l, nobs, nout>>
+    /\ \/ /\ cfg.tmo
+          /\ \E s \in Shards, k \in Kinds :
+               /\ fly[s][k] # <<>>
+               /\ \/ /\ e.a = "Done" /\ e.c \in Range(fly[s][k]) /\ e.res.st = "timeout" /\ done[e.c] = 0
+                  \/ /\ e.a = "Batch" /\ e.s = s /\ e.k = k /\ seen[s][k] /\ ~SameBatch(fly[s][k], e)
+                  \/ /\ e.a = "Respond" /\ e.s = s /\ e.k = k /\ k = "w" /\ late[s] = <<>> /\ IsFly(e)
+               /\ Expire(s, k)
+               /\ seen' = [seen EXCEPT ![s][k] = FALSE]
+       \/ /\ e.a = "Batch" /\ e.s \in Shards /\ e.k \in Kinds /\ UNCHANGED seen
           /\ LET T == SortedIds(Range(e.p) \cup Range(e.d) \cup Range(e.r)) IN
              \/ IsPrefix(cur[e.s][e.k], T) /\ Take(e.s, e.k)
              \/ cur[e.s][e.k] = T /\ Timer(e.s, e.k)
-       \/ /\ e.a \in {"Out", "Closed"} /\ e.c \in CallIds /\ IsStream(calls[e.c])
+       \/ /\ e.a \in {"Out", "Closed"} /\ e.c \in CallIds /\ IsStream(calls[e.c]) /\ UNCHANGED seen
           /\ IF MultiScan(e.c)
              THEN \/ MPop(e.c)
                   \/ MTake(e.c)
